@@ -92,6 +92,19 @@ func (fx *fexec) staticCall(x *ssa.Call, f *ssa.Function, args []Val, bind []Val
 	if o := f.Origin(); o != nil {
 		body = o
 	}
+	if c != nil && c.Pure {
+		// opaque at call sites: only "same arguments, same result" is known
+		rt := vc.resolve(x.Type())
+		t := vc.pureApp(key, args, rt, func(comp, srt string) Term { return vc.heapGet(st, comp, srt) })
+		for i, r := range c.Requires {
+			sc := &SpecCtx{vc: vc, vars: paramVars(body, args), st: st, old: st, pkg: body.Pkg.Pkg}
+			o := vc.oblige(st, "pre@call", fmt.Sprintf("%s requires #%d: %s", c.Name, i+1, r.Src), sc.evalBool(r.X))
+			o.Pos = pos
+		}
+		v := Val{Ty: rt, T: vc.define(x.Name(), t)}
+		vc.assert(vc.typeInv(v.T, rt, st.alloc))
+		return v
+	}
 	if c != nil && !c.Inline {
 		restore := fx.calleeSubst(f)
 		defer restore()
@@ -197,7 +210,7 @@ func (fx *fexec) applyContractSig(c *Contract, sig *types.Signature, vars map[st
 	}
 	st.alloc = vc.freshAlloc(st.alloc)
 	res := make([]Val, sig.Results().Len())
-	post := &SpecCtx{vc: vc, vars: map[string]Val{}, st: st, old: pre, pkg: pkg}
+	post := &SpecCtx{vc: vc, vars: map[string]Val{}, st: st, old: pre, pkg: pkg, base: pre.alloc}
 	for k, v := range vars {
 		post.vars[k] = v
 	}
